@@ -14,7 +14,8 @@ EXTENDS EventsProps, Json
 CONSTANTS Tier,       \* "quick" | "thorough"
           RunTypes,   \* event types of this run (runs are split by type to use all cores)
           RunCls,     \* subset of {"fid", "mut", "app"}
-          RunHs       \* height tokens of the fid/app values of this run
+          RunHs,      \* height tokens of the fid/app values of this run
+          RunSenders  \* sender tokens of the fid/app values of this run
 
 VARIABLE c
 
@@ -25,7 +26,7 @@ Seq2(S) == {<<a, b>> : a \in S, b \in S}
 Seq3(S) == {<<a, b, d>> : a \in S, b \in S, d \in S}
 
 HS == HeightToks \cap RunHs
-Senders == IF Thorough THEN AddrToks ELSE {"AZ", "AF", "K1"}
+Senders == AddrToks \cap RunSenders
 Keys == KeyToks
 AddrLists ==
     IF Thorough THEN {<<>>} \cup Seq1(AddrToks) \cup Seq2(AddrToks) \cup
@@ -68,7 +69,7 @@ Values(type) ==
 (* ---- base values whose encodings are mutated ---------------------------- *)
 BaseValues(type) ==
     LET B == Blank(type, "One")
-        quick ==
+        first ==
           CASE type = "checkin" -> {[B EXCEPT !.s = "K1", !.key = "E1"]}
             [] type = "batchconfig" -> {[B EXCEPT !.act = "MaxI64p1", !.thr = "One", !.as = <<"K2", "K3">>, !.idx = "MaxU64"],
                                         [B EXCEPT !.act = "Z0", !.thr = "MaxI64", !.as = <<>>, !.idx = "Z0"]}
@@ -96,7 +97,7 @@ BaseValues(type) ==
                                        [B EXCEPT !.s = "AF", !.eon = "MaxU64", !.as = <<"AZ", "K3">>]}
             [] type = "apology" -> {[B EXCEPT !.s = "AZ", !.eon = "Z0", !.as = <<"AF">>, !.items = <<"b0">>],
                                     [B EXCEPT !.s = "K1", !.eon = "MaxU64", !.as = <<"K2", "K3">>, !.items = <<"bQ", "b256">>]}
-    IN IF Thorough THEN quick \cup more ELSE quick
+    IN first \cup more
 
 (* ---- mutations ------------------------------------------------------------ *)
 D(kind, i, j, f) == [kind |-> kind, i |-> i, j |-> j, f |-> f]
@@ -109,12 +110,12 @@ ExtraAttr == [key |-> Key("Extra"), val |-> Leaf("raw", "x", None)]
 TypeForms == {"unknown", "empty", "upper", "noprefix", "trailspace"}
 KeyForms == {"lower", "suffix", "empty"}
 NumForms == {"leadzero", "plus", "space", "trailspace", "dotzero", "hexpfx", "empty", "neg", "overflow",
-             "overflowbig", "nondigit", "underscore"}
-AddrForms == {"lower", "upper", "noprefix", "prefixX", "badsum", "space", "short", "long", "odd", "empty", "nonhex"}
-HexForms == {"upper", "prefixX", "noprefix", "space", "odd", "nonhex"}          \* + "padzero" for big integers
-GammaForms == {"upper", "prefix0x", "odd", "nonhex", "short", "long"}
+             "overflowbig", "nondigit", "underscore", "garbage"}
+AddrForms == {"lower", "upper", "noprefix", "prefixX", "badsum", "space", "short", "long", "odd", "empty", "nonhex", "garbage"}
+HexForms == {"upper", "prefixX", "noprefix", "space", "odd", "nonhex", "garbage"}          \* + "padzero" for big integers
+GammaForms == {"upper", "prefix0x", "odd", "nonhex", "short", "long", "garbage"}
 KeyValForms == {"trailbits", "newline", "padded", "std", "compressed", "hybrid", "badchar", "empty", "truncated",
-                "long", "offcurve", "zero"}
+                "long", "offcurve", "zero", "garbage"}
 
 (* a spelling is only generated where its text differs from the canonical text *)
 NoLetters == {"AZ", "e", "b0", "b7", "b256"}        \* tokens whose canonical hex has no letter (checked by the concretiser)
